@@ -77,6 +77,7 @@ def run(rep, ctx, tier):
                                                                "is never used in the decision"), t["span"])
         rep.count("squeeze_sites", n_sq)
         R3.run(rep, ctx, a, "R3")
+        R3.run_option(rep, ctx, a, "R3")
         rep.count("bodies_with_loops", R1D.run_last_value(rep, ctx, a, "R1L"))
 
 
